@@ -1,6 +1,6 @@
-"""setup: regenerate Gen, full clean-ish build of all Coq files."""
+"""setup: regenerate Gen, build the Coq cone of every claimed property (full .vo build)."""
+import json
 import os
-import sys
 from dv import core
 
 
@@ -9,10 +9,13 @@ def main():
     for e in errs:
         print("GEN-FAIL", e)
     core.refresh_coqproject()
-    targets = [s[:-2] + ".vo" for s in core.coq_sources() if not s.startswith("Props/")]
-    good, log = core.coq_make(targets, timeout=3400)
-    print(log[-3000:])
-    # Props files are built too (their Print Assumptions output is re-read by each check)
-    good2, log2 = core.coq_make([s[:-2] + ".vo" for s in core.coq_sources() if s.startswith("Props/")], timeout=3400)
-    print(log2[-2000:])
-    return 0 if (good and good2) else 1
+    man = json.load(open(os.path.join(core.ROOT, "MANIFEST.json")))
+    targets = []
+    for c in man["checks"]:
+        p = "Props/%s.vo" % c["property_id"]
+        if os.path.exists(os.path.join(core.COQ, p[:-1])):
+            targets.append(p)
+    good, log = core.coq_make(["-k"] + targets, timeout=3400)
+    print(log[-4000:])
+    print("setup: built %d property cones, ok=%s" % (len(targets), good))
+    return 0 if good else 1
